@@ -3,6 +3,7 @@
 From BX Require Import Model.Router Proofs.RouterProofs.
 From BX Require Import Base.Prelude Base.Fsm Model.TxFsm Model.TxMgr Model.Interchain Model.IbtpExec Model.IbtpMon Model.IbtpJudge
      Proofs.IbtpInv Proofs.IbtpBlock Proofs.IbtpGroup Proofs.IbtpProps.
+From BX Require Import Proofs.IbtpMonProofs.
 Local Open Scope N_scope.
 
 (** the global status is SUCCESS only when the number of children equals the declared count and every
@@ -58,6 +59,13 @@ Print Assumptions C05_router_faithful.
     list every child for the source chain and every already-succeeded child for its destination chain,
     is not proved as a theorem over all histories; it is part of the boolean predicate [c05_b], which is
     evaluated on every implementation trace and on the model's traces (witnesses below). *)
+
+
+(** the boolean predicate the judge evaluates on implementation traces is exactly the inductively
+    defined trace property [C05_trace] (Proofs/IbtpMonProofs.v) *)
+Theorem C05_predicate_reflects : forall w q items tr, c05_b w q items tr = true <-> C05_trace w q None items tr.
+Proof. exact c05_b_spec. Qed.
+Print Assumptions C05_predicate_reflects.
 
 (** * witnesses *)
 Definition w_grp : world :=
